@@ -150,11 +150,38 @@ theorem src_lookup_innermost (ρ : Env) (x : String) (v : Val) :
   · simp [lookupEnv]
   · intro y w h; simp [lookupEnv, h]
 
+/-- **A bare name with a local binder in scope means that binder, however it is spelled.**
+    No table of the project (constructors, functions, builtins) is consulted: a parameter or
+    pattern variable called `Square` is that variable even where an enum of the project has a
+    variant `Square`. -/
+theorem src_local_binder_wins (T : Tab) (ctx : Ctx) (ρ : Env) (x : String) (v : Val)
+    (h : lookupEnv ρ x = some v) : evalPath T ctx ρ [x] = .ok v := by
+  simp only [evalPath, h]
+
+/-- **… in CALL position too, whichever way the lowering tagged the node.**  With a local binder
+    `x` in scope, `x(args)` applies the value of `x` to the arguments: the node `constr [x] args`
+    (what `lower.rs` produces when it takes `x` for a constructor of the file) and the node
+    `call (path [x]) args` have the same meaning.  So a lowering that classifies the callee by
+    its spelling alone cannot agree with `SrcSem` on a program where the two readings differ. -/
+theorem src_local_callee_wins (fuel : Nat) (T : Tab) (ctx : Ctx) (ρ : Env) (w w' : World)
+    (x : String) (fv : Val) (args : List Src.Expr) (vs : List Val)
+    (h : lookupEnv ρ x = some fv)
+    (hargs : evalList (fuel + 1) T ctx ρ w args = .ok vs w') (hne : vs.isEmpty = false) :
+    eval (fuel + 2) T ctx ρ w (.constr [x] args) = apply (fuel + 1) T w' fv vs ∧
+    eval (fuel + 2) T ctx ρ w (.call (.path [x]) args) = apply (fuel + 1) T w' fv vs := by
+  constructor
+  · simp only [eval, hargs, h, hne]; rfl
+  · simp only [eval, evalPath, h, hargs]
+
 /-! ### non-vacuity: the hypotheses are satisfiable and the statements distinguish programs -/
 
 def demoTab : Tab :=
   { structs := [("Span", { name := "Span", fields := [("start", .int 32 true), ("end", .int 32 true)] }),
                 ("Pair", { name := "Pair", fields := [("l", .bool), ("r", .bool)] })] }
+
+def demoTabE : Tab :=
+  { packages := ["Main"],
+    enums := [("Main::Shape", "Main", { name := "Shape", variants := [("Circle", [.int 32 true]), ("Square", [.int 32 true])] })] }
 
 /-- `Span { start: 0, end: 7 }` -/
 def span07 : Val := .structV "Span" [.int 32 true 0, .int 32 true 7]
@@ -187,6 +214,14 @@ example : (matchPat demoTab "Main" (.struct ["Pair"] [.mk "r" .wild, .mk "l" (.l
 
 /-- `Span { end: 7, start: 0 }` and `Span { start: 0, end: 7 }` store the same representation -/
 example : (buildStruct ["start", "end"] [("end", Val.int 32 true 7), ("start", .int 32 true 0)]).map (·.length) = some 2 := by decide
+
+/-- a local `Square` beats the variant `Square` of the project: `demoTabE` declares
+    `enum Shape { Circle(int32), Square(int32) }`, and with `Square ↦ 5` in scope the bare name is 5,
+    while without the binder it is the constructor -/
+example : (match evalPath demoTabE { pkg := "Main" } [("Square", .int 32 true 5)] ["Square"] with
+    | .ok (.int _ _ n) => n | _ => -1) = 5 := by decide
+example : (match evalPath demoTabE { pkg := "Main" } [] ["Square"] with
+    | .ok (.fn (.ctor _ idx _)) => Int.ofNat idx | _ => -1) = 1 := by decide
 
 /-- shadowing: the innermost binder wins, the outer binding is untouched -/
 example : intOf (some (bindAll [("x", .int 32 true 1)] [("x", .int 32 true 2)])) "x" = 2 := by decide
